@@ -495,6 +495,10 @@ def check(prog, rep):
     from ..rules_own import copy_protocol
 
     copy_protocol(prog, rep)
+    # nothing on the way is memoised on a key that does not determine the answer
+    from ..rules_own import memo_rule
+
+    memo_rule(prog, rep, rule="MEMO")
 
 
 VARIANTS = [
